@@ -1109,28 +1109,34 @@ impl C01 {
         // ---- the same bytes somewhere else: the processor's behaviour does not depend on where a relative branch
         // stands, only its targets and the pushed return address move along. The instruction is lifted a second time
         // 0x7f00_0000_0000 higher (where addresses no longer fit 32 bits) and must do the same thing shifted by that.
-        if mode64 && matches!(e.form.kind, Rel8 | Rel32) {
-            const HIGH: u64 = 0x7f00_0000_0000;
-            if let Ok(Ok(btr2)) = guard(|| Amd64::new().translate_block(&lift_bytes, lift_addr + HIGH, &Options::default())) {
+        if matches!(e.form.kind, Rel8 | Rel32) && !(e.addr32 && !mode64) {
+            // (32-bit mode: 0xe000_0000 higher, beyond the sign bit of a 32-bit address)
+            let high: u64 = if mode64 { 0x7f00_0000_0000 } else { 0xe000_0000 };
+            #[allow(non_snake_case)]
+            let HIGH = high;
+            let relifted = guard(|| if mode64 { Amd64::new().translate_block(&lift_bytes, lift_addr + HIGH, &Options::default()) } else { X86::new().translate_block(&lift_bytes, lift_addr + HIGH, &Options::default()) });
+            if let Ok(Ok(btr2)) = relifted {
                 let mut il2 = il0.clone();
                 let end2 = run_block(&btr2, &mut il2);
                 ctx.eval();
                 let mut d2: Vec<String> = Vec::new();
                 match end2 {
-                    LiftEnd::Next(p) if p == il_pc.wrapping_add(HIGH) => {}
+                    LiftEnd::Next(p) if p == (if mode64 { il_pc.wrapping_add(HIGH) } else { il_pc.wrapping_add(HIGH) & 0xffff_ffff }) => {}
                     other => d2.push(format!("next rip: expected 0x{:x} got {:?}", il_pc.wrapping_add(HIGH), other)),
                 }
-                for i in 0..16 {
-                    if il2.get_u64(GPR64[i]) != il.get_u64(GPR64[i]) {
-                        d2.push(format!("{}: 0x{:x?} at the low address, 0x{:x?} at the high one", GPR64[i], il.get_u64(GPR64[i]), il2.get_u64(GPR64[i])));
+                let regs: &[&str] = if mode64 { &GPR64 } else { &GPR32 };
+                for r in regs.iter() {
+                    if il2.get_u64(r) != il.get_u64(r) {
+                        d2.push(format!("{}: 0x{:x?} at the low address, 0x{:x?} at the high one", r, il.get_u64(r), il2.get_u64(r)));
                     }
                 }
                 // memory: identical, except that a call pushes a return address that moved along
-                let rsp = il.get_u64("rsp").unwrap_or(0);
-                let word = |m: &std::collections::BTreeMap<u64, u8>, a: u64| -> Option<u64> { (0..8).map(|k| m.get(&(a + k)).map(|b| (*b as u64) << (8 * k))).sum::<Option<u64>>() };
+                let rsp = il.get_u64(if mode64 { "rsp" } else { "esp" }).unwrap_or(0);
+                let slot = if mode64 { 8u64 } else { 4 };
+                let word = |m: &std::collections::BTreeMap<u64, u8>, a: u64| -> Option<u64> { (0..slot).map(|k| m.get(&(a + k)).map(|b| (*b as u64) << (8 * k))).sum::<Option<u64>>() };
                 let is_call = e.form.name == "call_rel32";
                 for (a, b) in il.mem.iter() {
-                    if is_call && *a >= rsp && *a < rsp + 8 {
+                    if is_call && *a >= rsp && *a < rsp + slot {
                         continue;
                     }
                     if il2.mem.get(a) != Some(b) {
@@ -1138,16 +1144,16 @@ impl C01 {
                         break;
                     }
                 }
-                if is_call && word(&il2.mem, rsp) != word(&il.mem, rsp).map(|v| v.wrapping_add(HIGH)) {
+                if is_call && word(&il2.mem, rsp) != word(&il.mem, rsp).map(|v| if mode64 { v.wrapping_add(HIGH) } else { v.wrapping_add(HIGH) & 0xffff_ffff }) {
                     d2.push(format!("pushed return address: 0x{:x?} at the low address, 0x{:x?} at the high one", word(&il.mem, rsp), word(&il2.mem, rsp)));
                 }
                 if !d2.is_empty() {
-                    ctx.violation(&format!("{}:lifted_0x7f0000000000_higher_behaves_differently", sig_base), json!({"input": state_json(&e, &st0), "differences": d2}));
+                    ctx.violation(&format!("{}:lifted_{}_higher_behaves_differently", sig_base, if mode64 { "0x7f0000000000" } else { "0xe0000000" }), json!({"input": state_json(&e, &st0), "differences": d2}));
                     return;
                 }
-                ctx.count("amd64.relative_branches_relifted_at_a_high_address");
+                ctx.count(if mode64 { "amd64.relative_branches_relifted_at_a_high_address" } else { "x86.relative_branches_relifted_at_a_high_address" });
             } else {
-                ctx.violation(&format!("{}:not_lifted_0x7f0000000000_higher", sig_base), state_json(&e, &st0));
+                ctx.violation(&format!("{}:not_lifted_at_a_high_address", sig_base), state_json(&e, &st0));
                 return;
             }
         }
